@@ -46,6 +46,7 @@ STUBS = dict(file=FC, name="fv_formm", vis="pub(crate) ", code="""
     /// ghost state: which (in_size, out_size) tables were requested, in order
     pub(crate) static mut FV_TABLE_CALLS: [(u32, u32); 4] = [(0, 0); 4];
     pub(crate) static mut FV_TABLE_N: usize = 0;
+    pub(crate) static mut FV_TABLE_ADAPTIVE: [bool; 4] = [false; 4];
 
     /// records the request and returns the simplest table satisfying WinInv (one tap per window at position 0):
     /// the planning obligations only observe WHICH tables are requested, the kernels just have to run
@@ -53,7 +54,7 @@ STUBS = dict(file=FC, name="fv_formm", vis="pub(crate) ", code="""
         in_size: u32, _in0: f64, _in1: f64, out_size: u32, _f: fn(f64) -> f64, _s: f64, _a: bool,
     ) -> Coefficients {
         unsafe {
-            if FV_TABLE_N < 4 { FV_TABLE_CALLS[FV_TABLE_N] = (in_size, out_size); }
+            if FV_TABLE_N < 4 { FV_TABLE_CALLS[FV_TABLE_N] = (in_size, out_size); FV_TABLE_ADAPTIVE[FV_TABLE_N] = _a; }
             FV_TABLE_N += 1;
         }
         let mut bounds = Vec::with_capacity(out_size as usize);
@@ -369,6 +370,54 @@ PLAN = """
         assert!(n == 2 && c0 == (3, 2) && c1 == (2, 1));   // horizontal table first (columns 3 -> 2), then vertical (rows 2 -> 1)
     }
 
+    // ---------------------------------------------------------------- C07 / C09: the alpha path is really taken, with the caller's kernel mode
+    #[kani::proof]
+    #[kani::unwind(8)]
+    #[kani::stub(crate::convolution::precompute_coefficients, crate::convolution::fv_formm::fv_stub_precompute_coefficients_rec)]
+    #[kani::stub(crate::convolution::optimisations::Normalizer16::new, crate::convolution::optimisations::fv_nstub::fv_stub_normalizer16_new_identity)]
+    fn c07_alpha_path_u8x2_interpolation() {
+        // source 3x3 U8x2, crop (0, 0, 3, 2) that does NOT reach the bottom edge, destination 2x2: horizontal pass only.
+        // With the identity stand-in tables destination pixel x is divide(premultiply(source pixel 0 of its row)).
+        let sp: [u8; 18] = kani::any();
+        let src: [U8x2; 9] = [U8x2::new([sp[0], sp[1]]), U8x2::new([sp[2], sp[3]]), U8x2::new([sp[4], sp[5]]), U8x2::new([sp[6], sp[7]]),
+                              U8x2::new([sp[8], sp[9]]), U8x2::new([sp[10], sp[11]]), U8x2::new([sp[12], sp[13]]), U8x2::new([sp[14], sp[15]]),
+                              U8x2::new([sp[16], sp[17]])];
+        let mut dst = [U8x2::new([9, 9]); 5];
+        let opts = ResizeOptions::new().resize_alg(ResizeAlg::Interpolation(FilterType::Bilinear)).crop(0.0, 0.0, 3.0, 2.0);
+        // scratch buffers pre-sized (Vec::resize is a 20-iteration loop that would force a large global unwinding bound) with arbitrary content
+        let junk: u8 = kani::any();
+        let mut r = fv_resizer(vec![junk; 24], vec![junk; 24], Vec::new());
+        {
+            let s = TypedImageRef::new(3, 3, &src).unwrap();
+            let mut d = TypedImage::from_pixels_slice(2, 2, &mut dst).unwrap();
+            assert!(r.resize_typed(&s, &mut d, &opts).is_ok());
+        }
+        // the kernel mode requested by the caller (Interpolation = fixed kernel) reaches the table computation on the alpha path
+        unsafe {
+            assert!(crate::convolution::fv_formm::FV_TABLE_N == 1);
+            assert!(crate::convolution::fv_formm::FV_TABLE_ADAPTIVE[0] == false);
+        }
+        kani::cover!(sp[1] == 0 && sp[0] != 0);
+        // row 0 of the destination comes from source row 0, pixel 0; row 1 from source row 1, pixel 0 (pixel 3)
+        for (d0, a, c) in [(0usize, sp[1], sp[0]), (2usize, sp[7], sp[6])] {
+            assert!(dst[d0].0[1] == a);                                   // alpha resampled as a plain channel (identity taps)
+            if a == 0 { assert!(dst[d0].0[0] == 0); }                     // transparent: colour 0 whatever was stored
+            if a == 255 { assert!(dst[d0].0[0] == c); }                   // opaque: as with alpha handling off
+        }
+        assert!(dst[4].0 == [9, 9]);
+    }
+
+    #[kani::proof]
+    fn c09_set_cpu_extensions_reaches_both_stages() {
+        let mut r = fv_resizer(Vec::new(), Vec::new(), Vec::new());
+        for ext in [CpuExtensions::Sse4_1, CpuExtensions::Avx2, CpuExtensions::None, CpuExtensions::Avx2] {
+            unsafe { r.set_cpu_extensions(ext); }
+            assert!(r.cpu_extensions() == ext && r.mul_div.cpu_extensions() == ext);
+            let c = r.clone();
+            assert!(c.cpu_extensions() == ext && c.mul_div.cpu_extensions() == ext);
+        }
+    }
+
     // ---------------------------------------------------------------- SuperSampling whose intermediate image has the destination size
     #[kani::proof]
     #[kani::unwind(7)]
@@ -465,6 +514,12 @@ UNIT = dict(
             dict(name="k8_plan_fractional_offset", kind="bounded", timeout=1500, props=["C12", "C01"], bound="U8 3x3, crop (0.5, 0, 2, 3) -> 2x2", claim="a fractional crop origin forces the pass along that axis even when the size matches"),
             dict(name="k8_plan_fractional_top", kind="bounded", timeout=1500, props=["C12", "C01"], bound="U8 3x3, crop (0, 0.5, 3, 2) -> 2x2", claim="a fractional crop top forces the vertical pass even when the height matches"),
             dict(name="k8_plan_both_passes", kind="bounded", timeout=1500, props=["C01", "C12"], bound="U8 3x2 -> 2x1", claim="both tables are computed: horizontal from the source width, vertical from the source height"),
+            dict(name="c07_alpha_path_u8x2_interpolation", kind="bounded", covers=1, timeout=2400, props=["C07"],
+                 bound="U8x2 3x3, crop (0,0,3,2) -> 2x2, Interpolation, identity stand-in tables, all contents",
+                 claim="the alpha path is taken: transparent source pixels give colour 0, opaque ones are unchanged, alpha is a plain channel; the "
+                       "fixed-kernel mode of Interpolation reaches the table computation; spare pixel untouched"),
+            dict(name="c09_set_cpu_extensions_reaches_both_stages", kind="complete", timeout=300, props=["C09", "C02"],
+                 claim="set_cpu_extensions selects the same back-end for the convolution stage and the alpha stage, for every sequence of selections; clone keeps it"),
             dict(name="c12_supersampling_intermediate_has_dst_size", kind="bounded", timeout=1500, props=["C12", "C05", "C01"], bound="U8 4x4 -> 1x1, SuperSampling multiplicity 1 (intermediate image 1x1)", claim="the destination receives the intermediate pixel (nothing stale survives); spare pixel untouched"),
             dict(name="k8_shift_horizontal_bounds", kind="complete", covers=1, timeout=900, props=["C03", "C01"],
                  claim="statement slice of do_convolution (u8 path): for ANY three windows satisfying WinInv (no order assumed, any u32 in_size) the temp width and the "
